@@ -25,11 +25,14 @@
 #include <iv_signal.h>
 #include <iv_thread.h>
 #include <iv_wait.h>
+#include <iv_inotify.h>
+#include <sys/stat.h>
+#include <fcntl.h>
 #include <iv_work.h>
 
 const char *target_name = "race";
 
-enum { L_CROSS_POST, L_RAW_CROSS_POST, L_POOL, L_CONTINUATION, L_SIGNAL_DELIVERY, L_CHILD_REAPED, L_LOOP_CHURN, L_TWO_LOOPS_CONCURRENT, L_M0, L_M1, L_M2, L_M3, L_PIPE_TRANSPORT, L_IVTHREAD, L_SAME_EVENT_TWO_POSTERS, L_CONCURRENT_FIRST_EVENT };
+enum { L_CROSS_POST, L_RAW_CROSS_POST, L_POOL, L_CONTINUATION, L_SIGNAL_DELIVERY, L_CHILD_REAPED, L_LOOP_CHURN, L_TWO_LOOPS_CONCURRENT, L_M0, L_M1, L_M2, L_M3, L_PIPE_TRANSPORT, L_IVTHREAD, L_SAME_EVENT_TWO_POSTERS, L_CONCURRENT_FIRST_EVENT, L_INOTIFY_PER_LOOP };
 
 static void fatal_handler(const char *msg)
 {
@@ -40,9 +43,12 @@ static void fatal_handler(const char *msg)
 
 #define NEV 3
 static struct iv_event main_ev[NEV]; static struct iv_event_raw main_raw;
+static struct iv_event churn_ev; static int cfg_churn_ev, cfg_main_events, cfg_loop_children;
 static atomic_int main_ready, posters_done, stop_all, nposters, loops_done, nloops;
 static atomic_long n_cross_posts, n_raw_posts, n_items_done, n_sig, n_reaped, n_churn, n_cont;
 static struct iv_work_pool pool; static int have_pool;
+static void pool_thread_start(void *c) { (void)c; struct timespec ts = { 0, 200000 }; nanosleep(&ts, NULL); }
+static void pool_thread_stop(void *c) { (void)c; struct timespec ts = { 0, 2000000 }; nanosleep(&ts, NULL); }
 #define NIT 16
 static struct iv_work_item items[NIT], conts[NIT]; static int nitems;
 static struct iv_signal sigint; static int have_sig;
@@ -50,7 +56,15 @@ static struct iv_wait_interest wi[2]; static int nwi;
 static struct iv_timer main_timer; static int main_ticks;
 static int cfg_post_count, cfg_churn, cfg_raise;
 
-static void ev_handler(void *c) { (void)c; }
+static void churn_handler(void *c) { (void)c; }
+static void ev_handler(void *c)
+{
+	(void)c;
+	/* the owner queues one of its own events and takes it out again while other threads are posting different events of
+	 * the same loop: unlinking a queued event must be ordered with their insertions */
+	if (cfg_churn_ev && !atomic_load(&stop_all))
+		for (int k = 0; k < 3; k++) { iv_event_post(&churn_ev); iv_event_unregister(&churn_ev); IV_EVENT_INIT(&churn_ev); churn_ev.handler = churn_handler; iv_event_register(&churn_ev); }
+}
 static void raw_handler(void *c) { (void)c; }
 static void sig_handler(void *c) { (void)c; atomic_fetch_add(&n_sig, 1); }
 static void wait_handler(void *c, int status, const struct rusage *ru)
@@ -58,6 +72,8 @@ static void wait_handler(void *c, int status, const struct rusage *ru)
 	struct iv_wait_interest *w = c; (void)ru;
 	if (WIFEXITED(status) || WIFSIGNALED(status)) { atomic_fetch_add(&n_reaped, 1); iv_wait_interest_unregister(w); w->cookie = NULL; }
 }
+static void wait_handler_ignore(void *c, int status, const struct rusage *ru) { (void)c; (void)status; (void)ru; }
+static void child_fn_pause(void *c) { (void)c; for (;;) pause(); }
 static void cont_work(void *c) { (void)c; }
 static void cont_done(void *c) { (void)c; atomic_fetch_add(&n_items_done, 1); }
 static void work_fn(void *c)
@@ -104,22 +120,60 @@ static void *poster_main(void *arg)
 	return NULL;
 }
 
+/* every loop thread watches a directory of its own through its own inotify instance: the instances are independent, events of one
+ * must never show up in another (file names carry the thread id) */
+static int cfg_ino; static const char *ino_base;
+#define INO_FILES 24
+struct lino { struct iv_inotify in; struct iv_inotify_watch w; int id, seen, bad, active; struct iv_timer guard; char dir[256]; };
+static void lino_done(struct lino *l) { if (!l->active) return; l->active = 0; iv_inotify_watch_unregister(&l->w); iv_inotify_unregister(&l->in); if (iv_timer_registered(&l->guard)) iv_timer_unregister(&l->guard); }
+static void lino_handler(void *c, struct inotify_event *ev)
+{
+	struct lino *l = c; char pre[16]; snprintf(pre, sizeof pre, "t%d-", l->id);
+	if (!ev->len || strncmp(ev->name, pre, strlen(pre))) { l->bad++; vz_fail("C20", "foreign-event", "loop thread %d: its inotify watch received an event named '%s' (mask 0x%x), which belongs to another thread's instance", l->id, ev->len ? ev->name : "", ev->mask); }
+	if (++l->seen >= 2 * INO_FILES) lino_done(l);
+}
+static void lino_guard(void *c) { struct lino *l = c; lino_done(l); }     /* events missing: give up quietly (wall-clock, so no verdict) */
+static void lino_start(struct lino *l, int id, int round)
+{
+	memset(l, 0, sizeof *l); l->id = id;
+	snprintf(l->dir, sizeof l->dir, "%s/ino%d", ino_base, id); mkdir(l->dir, 0700);
+	IV_INOTIFY_INIT(&l->in);
+	if (iv_inotify_register(&l->in)) return;
+	IV_INOTIFY_WATCH_INIT(&l->w); l->w.inotify = &l->in; l->w.pathname = l->dir; l->w.mask = IN_CREATE | IN_DELETE; l->w.cookie = l; l->w.handler = lino_handler;
+	if (iv_inotify_watch_register(&l->w)) { iv_inotify_unregister(&l->in); return; }
+	l->active = 1;
+	for (int k = 0; k < INO_FILES; k++) { char p[320]; snprintf(p, sizeof p, "%s/t%d-%d-%d", l->dir, id, round, k); int fd = open(p, O_CREAT | O_WRONLY, 0600); if (fd >= 0) close(fd); unlink(p); }
+	IV_TIMER_INIT(&l->guard); iv_validate_now(); l->guard.expires = iv_now; l->guard.expires.tv_sec += 3; l->guard.cookie = l; l->guard.handler = lino_guard;
+	iv_timer_register(&l->guard);
+}
+
 /* an independent loop in its own thread: init -> short program -> deinit, repeated */
 static void loop_ev_handler(void *c) { int *cnt = c; (*cnt)++; }
 static void loop_timer_cb(void *c) { struct iv_event *e = c; iv_event_unregister(e); }
 static void *loop_main(void *arg)
 {
 	int id = (int)(intptr_t)arg;
-	for (int round = 0; round < cfg_churn; round++) {
+	for (int round = 0; round < (cfg_main_events ? cfg_churn : cfg_churn * 12); round++) {
 		iv_init();
 		struct iv_event e; int cnt = 0; struct iv_timer t;
 		IV_EVENT_INIT(&e); e.cookie = &cnt; e.handler = loop_ev_handler;
 		iv_event_register(&e);
 		iv_event_post(&e);
-		if (atomic_load(&main_ready) && !atomic_load(&stop_all) && round % 2 == 0) { iv_event_post(&main_ev[id % NEV]); atomic_fetch_add(&n_cross_posts, 1); }
+		if (cfg_main_events && atomic_load(&main_ready) && !atomic_load(&stop_all) && round % 2 == 0) { iv_event_post(&main_ev[id % NEV]); atomic_fetch_add(&n_cross_posts, 1); }
 		IV_TIMER_INIT(&t); iv_validate_now(); t.expires = iv_now; t.expires.tv_nsec += 300000 * (1 + id); if (t.expires.tv_nsec >= 1000000000) { t.expires.tv_sec++; t.expires.tv_nsec -= 1000000000; }
 		t.cookie = &e; t.handler = loop_timer_cb;
 		iv_timer_register(&t);
+		if (cfg_loop_children && round == 0) {
+			/* a child of this thread's own: killed and its interest dropped at once, while another thread may be reaping it */
+			struct iv_wait_interest lw;
+			IV_WAIT_INTEREST_INIT(&lw); lw.cookie = NULL; lw.handler = wait_handler_ignore;
+			if (iv_wait_interest_register_spawn(&lw, child_fn_pause, NULL) == 0) {
+				iv_wait_interest_kill(&lw, SIGKILL);
+				if (id & 1) sched_yield();
+				iv_wait_interest_unregister(&lw);
+			}
+		}
+		struct lino li; if (cfg_ino && round < 3) lino_start(&li, id, round);
 		iv_main();
 		iv_deinit();
 		atomic_fetch_add(&n_churn, 1);
@@ -142,7 +196,8 @@ static void main_timer_cb(void *c)
 		atomic_store(&stop_all, 1);
 		/* posters are done (or we give up): nobody posts to our events any more */
 		if (!finished) vz_inconclusive("race scenario did not wind down in time");
-		for (int i = 0; i < NEV; i++) iv_event_unregister(&main_ev[i]);
+		if (cfg_main_events) for (int i = 0; i < NEV; i++) iv_event_unregister(&main_ev[i]);
+		if (cfg_churn_ev) iv_event_unregister(&churn_ev);
 		iv_event_raw_unregister(&main_raw);
 		if (have_sig) iv_signal_unregister(&sigint);
 		if (have_pool) iv_work_pool_put(&pool);
@@ -169,6 +224,10 @@ void target_run(void)
 	if (vz_param_l("noraise", 0)) cfg_raise = 0;
 	/* (signals go to the receiver thread) */     /* somebody has to receive SIGCHLD / SIGUSR1 */
 	int concurrent_first = ch_n(2);     /* loops start before the main loop has registered its first event */
+	cfg_churn_ev = ch_n(2); cfg_main_events = ch_n(4) != 0; cfg_loop_children = ch_n(3) == 0;
+	cfg_ino = vz_param_l("ino", -1) >= 0 ? (int)vz_param_l("ino", 0) : ch_n(4) == 0;
+	if (cfg_ino) { if (nl < 2) nl = 2; ino_base = vz_scratch_dir(); vz_label(L_INOTIFY_PER_LOOP); }
+	if (!cfg_main_events) { np = 0; cfg_churn_ev = 0; have_pool = 0; nitems = 0; nwi = 0; if (nl < 2) nl = 2; }     /* variant: only the loop threads hold events, so the process-wide kick descriptor comes and goes */
 	atomic_store(&nposters, np); atomic_store(&nloops, nl);
 	vz_hash_u(method * 1000 + np * 100 + nl * 10 + have_pool); vz_hash_u(cfg_post_count * 16 + cfg_churn * 4 + nwi); vz_hash_u(nitems * 4 + cfg_raise * 2 + concurrent_first);
 	vz_log("config: method=%d posters=%d loops=%d(churn %d) posts=%d pool=%d(items %d) signal=%d children=%d", method, np, nl, cfg_churn, cfg_post_count, have_pool, nitems, have_sig, nwi);
@@ -180,12 +239,14 @@ void target_run(void)
 	{ struct sigaction sa; memset(&sa, 0, sizeof sa); sa.sa_handler = wake_receiver; sigaction(SIGUSR2, &sa, NULL); }
 	pthread_create(&rt, NULL, receiver_main, NULL);
 	if (concurrent_first) { for (int i = 0; i < nl; i++) pthread_create(&lt[i], NULL, loop_main, (void *)(intptr_t)i); vz_label(L_CONCURRENT_FIRST_EVENT); }
-	for (int i = 0; i < NEV; i++) { IV_EVENT_INIT(&main_ev[i]); main_ev[i].handler = ev_handler; iv_event_register(&main_ev[i]); }
+	if (cfg_main_events) for (int i = 0; i < NEV; i++) { IV_EVENT_INIT(&main_ev[i]); main_ev[i].handler = ev_handler; iv_event_register(&main_ev[i]); }
+	if (cfg_churn_ev) { IV_EVENT_INIT(&churn_ev); churn_ev.handler = churn_handler; iv_event_register(&churn_ev); }
 	IV_EVENT_RAW_INIT(&main_raw); main_raw.handler = raw_handler; iv_event_raw_register(&main_raw);
 	if (have_sig) { IV_SIGNAL_INIT(&sigint); sigint.signum = SIGUSR1; sigint.flags = 0; sigint.handler = sig_handler; iv_signal_register(&sigint); }
 	for (int i = 0; i < nwi; i++) { IV_WAIT_INTEREST_INIT(&wi[i]); wi[i].cookie = &wi[i]; wi[i].handler = wait_handler; if (iv_wait_interest_register_spawn(&wi[i], child_fn, NULL) < 0) { wi[i].cookie = NULL; nwi = i; break; } }
 	if (have_pool) {
 		IV_WORK_POOL_INIT(&pool); pool.max_threads = 1 + ch_n(3); pool.cookie = NULL;
+		if (ch_n(2)) { pool.thread_start = pool_thread_start; pool.thread_stop = pool_thread_stop; }     /* user hooks that take a moment: the pool must stay intact around them */
 		iv_work_pool_create(&pool);
 		for (int i = 0; i < nitems; i++) {
 			IV_WORK_ITEM_INIT(&items[i]); items[i].cookie = (void *)(intptr_t)i; items[i].work = work_fn; items[i].completion = work_done;
